@@ -561,19 +561,49 @@ FUNCS = {
     "call_in_history": Func(model=model_case, impl=impl_case, direct=direct_case),
     "fresh_interpreter": Func(impl=impl_replay, direct=direct_replay),
     "threads": Func(impl=lambda a: 0, direct=lambda a: threaded(a)),
-    "memo_info": Func(model=lambda m, a: m.call("memo_info", a[0].encode()),
-                      impl=lambda a: EXPECT_INFO[a[0]]),
+    "is_memoised": Func(model=lambda m, a: _flag(m.call("memo_info", a[0].encode())), impl=lambda a: runtime_cached(a[0])),
 }
 
-# what the generated table must say about the methods the findings are about (and two controls)
-EXPECT_INFO = {
-    "Bip44Base.PrivateKey": [1, [b"Bip32Base.m_priv_key"]],
-    "CardanoShelley.PrivateKeys": [1, [b"Bip32Base.m_priv_key"]],
-    "Bip44PublicKey.ToAddress": [1, [b"BipBitcoinCashConf.m_use_legacy_addr", b"BipLitecoinConf.m_use_depr_addr"]],
-    "Bip44Base.PublicKey": [1, []],
-    "CardanoShelleyPublicKeys.ToAddress": [1, []],
-    "Bip32Base.PrivateKey": [0, []],
-}
+
+def _flag(r):
+    return r if r[0] != "ok" else ("ok", r[1][0])
+
+
+_RT = None
+
+
+def runtime_methods():
+    """{"Class.method": is it wrapped by functools.lru_cache at run time} for every class defined in bip_utils
+       (independent of the AST: looks at the live function objects)"""
+    global _RT
+    if _RT is None:
+        import importlib
+        import pkgutil
+        import inspect
+        import bip_utils
+        _RT = {}
+        for mi in pkgutil.walk_packages(bip_utils.__path__, "bip_utils."):
+            try:
+                mod = importlib.import_module(mi.name)
+            except Exception:  # noqa
+                continue
+            for cname, cls in vars(mod).items():
+                if not inspect.isclass(cls) or cls.__module__ != mod.__name__:
+                    continue
+                for attr, f in vars(cls).items():
+                    g = f.__func__ if isinstance(f, (staticmethod, classmethod)) else f
+                    if not callable(g):
+                        continue
+                    name = attr
+                    pre = "_" + cname.lstrip("_") + "__"
+                    if attr.startswith(pre):
+                        name = "__" + attr[len(pre):]
+                    _RT[cname + "." + name] = int(hasattr(g, "cache_info"))
+    return _RT
+
+
+def runtime_cached(name):
+    return runtime_methods()[name]
 
 
 # ----------------------------------------------------------------------------------- known findings
@@ -655,8 +685,12 @@ def run_history(ctx, h, tag):
 def generate(ctx):
     rng = ctx.rng
     baseline()
-    for name in EXPECT_INFO:
-        ctx.run("memo_info", [name], "table")
+    # the generated table and the live function objects agree on which methods are memoised
+    rt = runtime_methods()
+    for name in sorted(rt):
+        ctx.run("is_memoised", [name], "table")
+    ctx.note_exhaustive("memoisation flag of all %d methods of classes defined in bip_utils: Gen/Objects.v vs "
+                        "functools wrappers at run time (%d memoised)" % (len(rt), sum(rt.values())))
     # every call alone and twice (cache hit), on new shared objects
     for i in CALLS:
         run_history(ctx, [i, i], "alone")
